@@ -47,6 +47,16 @@ CHECKS["C19"] = ("exploration", "4 C19",
     "runtime monitoring: pinball-loss closed form, exhaustive minimiser search over sample points with exact Fraction order-statistic test, shape acceptance/rejection, mape/bias relations; icontract postconditions on quantile_score",
     "Thousands of samples with ties/heavy tails, all shape forms and tau vectors; minimiser clause decided exhaustively for n <= 1000.")
 
+CHECKS["C04"] = ("exploration", "4 C04",
+    "runtime monitoring: brute-force longdouble oracle over all n*m pairs (ids carried in the data) vs Collocator.collocate under hostile point sets, tuning parameters, unit spellings, windows, numpy RNG seeds and call histories on one Collocator; C13 structure post-condition on every result",
+    "Thousands of calls incl. threshold-straddling clusters, |dt| exactly at max_interval, first-first-only pairs, NaNs, poles/date line, grids, >1e6-candidate binned path and stale-index histories; each result compared pair-for-pair with the oracle (don't-care band 1e-9 relative around the distance threshold).")
+CHECKS["C07"] = ("exploration", "4 C07",
+    "runtime monitoring: longdouble closed-form oracle + icontract postconditions on the real geodesy functions (internal calls observed), relational driver for round trips / routes / metric axioms",
+    "Millions of points over all six ellipsoids, heights -10..1000 km, |lat| <= 88, all argument shapes; tolerances are the statement's 1 cm / 1e-7 deg plus derived float64 bounds.")
+CHECKS["C08"] = ("exploration", "4 C08",
+    "runtime monitoring: expm1/log1p longdouble reference with forward-error bounds, icontract postconditions on em functions, relational driver for inverses/Jacobians/Snell/Fresnel identities",
+    "Millions of (f, T) pairs with h f / k T in [1e-6, 600], multi-dimensional spectra, real and complex refractive indices.")
+
 NOT_YET = {}
 
 
